@@ -232,7 +232,7 @@ Definition expected_circ (first : bool) (oldlen : nat) (o : N) (st : cstatus) (p
 
 Definition expected_stream (o : N) (st : sstatus) (attached_to : option N) (kw : kws) : list (N * N * N * kws) :=
   match st with
-  | SNew => [(MS_NEW, o, 0, [])]
+  | SNew | SNewResolve => [(MS_NEW, o, 0, [])]      (* "a new stream has been created": a connection or a RESOLVE request *)
   | SSucceeded => [(MS_SUCCEEDED, o, 0, [])]
   | SDetached => [(MS_DETACH, o, 0, both_cases kw)]
   | SClosed => [(MS_CLOSED, o, 0, both_cases kw)]
@@ -258,12 +258,24 @@ Definition call_eqb (a b : N * N * N * kws) : bool :=
   let '(m1, o1, a1, f1) := a in let '(m2, o2, a2, f2) := b in
   (m1 =? m2) && (o1 =? o2) && (a1 =? a2) && kws_same f1 f2.
 
+(* What a listener does when it is called is its own business: return, raise (the harness lets listener
+   8 * (m + 1) + i, i < 8, raise from its method m), or look at TorState.  Every OTHER listener still hears
+   exactly its calls.  A listener >= 64 looks its object up in TorState.circuits / TorState.streams from inside
+   every callback and reports what it saw in the argument: + 2000 = listed (as this object), + 1000 = not
+   listed.  The state a callback sees already reflects the transition it is told about: the object is listed
+   unless the callback is *_closed / *_failed. *)
+Definition lqueries (l : N) : bool := 64 <=? l.
+Definition carg (l m a : N) : N :=
+  if lqueries l then a + (if (m =? M_CLOSED) || (m =? M_FAILED) then 1000 else 2000) else a.
+Definition qcall (l : N) (c : N * N * N * kws) : N * N * N * kws :=
+  let '(m, o, a, f) := c in (m, o, carg l m a, f).
+
 Definition notif_ok (circ : bool) (regs : list N) (expected : list (N * N * N * kws)) (es : list nev) : bool :=
   let called := if circ then circ_listeners_called es else stream_listeners_called es in
   let other := if circ then stream_listeners_called es else circ_listeners_called es in
   match other with [] => true | _ => false end &&
   forallb (fun l => memN l regs) called &&
-  forallb (fun l => list_eqb call_eqb (if circ then calls_of_circ l es else calls_of_stream l es) expected) regs.
+  forallb (fun l => list_eqb call_eqb (if circ then calls_of_circ l es else calls_of_stream l es) (map (qcall l) expected)) regs.
 
 Definition no_notifs (es : list nev) : bool :=
   match circ_listeners_called es, stream_listeners_called es with [], [] => true | _, _ => false end.
